@@ -249,6 +249,21 @@ func expectedResolution(c c09WF) (verifref.URLParts, []verifref.Pair) {
 	return t, pairs
 }
 
+// Unicode hosts and their IDNA ToASCII forms (RFC 3492 sample values, not computed by the code under test).
+var c09IDNHosts = []string{"bücher.example", "münchen.example", "www.bücher.example", "例え.jp"}
+var c09Punycode = map[string]string{"bücher.example": "xn--bcher-kva.example", "münchen.example": "xn--mnchen-3ya.example", "www.bücher.example": "www.xn--bcher-kva.example", "例え.jp": "xn--r8jz45g.jp"}
+
+func c09ASCIIAuthority(a string) string {
+	host, port := a, ""
+	if i := strings.LastIndexByte(a, ':'); i >= 0 {
+		host, port = a[:i], a[i:]
+	}
+	if p, ok := c09Punycode[host]; ok {
+		return p + port
+	}
+	return a
+}
+
 func propC09Resolution(t veriflib.TB, c c09WF) {
 	text := c.Ref.Text()
 	parent := c.Parent.Text()
@@ -263,6 +278,7 @@ func propC09Resolution(t veriflib.TB, c c09WF) {
 		veriflib.Fail(t, "C09", "C09/resolution", c, nil, "well-formed reference %q under parent %q rejected: %s", text, parent, errText)
 	}
 	want, wantPairs := expectedResolution(c)
+	want.Authority = c09ASCIIAuthority(want.Authority)
 	gp, ok := verifref.SplitURL(got)
 	if !ok {
 		veriflib.Fail(t, "C09", "C09/resolution", c, nil, "result %q is not absolute", got)
@@ -278,6 +294,9 @@ func propC09Resolution(t veriflib.TB, c c09WF) {
 	}
 	nt := len(wantPairs) >= 2 || strings.Contains(text, "..") || strings.Contains(text, "./")
 	cl := []string{"ref:" + c.Ref.Kind, fmt.Sprintf("qparams:%d", min(len(wantPairs), 4))}
+	if want.Authority != gp.Authority || strings.Contains(want.Authority, "xn--") {
+		cl = append(cl, "host:idn")
+	}
 	if c.NoPar {
 		cl = append(cl, "parent:no")
 	}
@@ -299,6 +318,14 @@ func TestVerif_C09_Resolution(t *testing.T) {
 		c := c09WF{Parent: verifgen.WFAbsGen(t, "parent"), Ref: verifgen.WFRefGen(t, "ref")}
 		if c.Ref.Kind == "abs" && rapid.IntRange(0, 1).Draw(t, "nopar") == 1 {
 			c.NoPar = true
+		}
+		// internationalised hosts (a handful, so that the same host comes back with other ports, paths and parents within
+		// one process): the canonical form carries the IDNA (punycode) spelling
+		if rapid.IntRange(0, 4).Draw(t, "idnparent") == 0 {
+			c.Parent.Host = c09IDNHosts[rapid.IntRange(0, len(c09IDNHosts)-1).Draw(t, "idnparenthost")]
+		}
+		if c.Ref.Abs != nil && rapid.IntRange(0, 3).Draw(t, "idnref") == 0 {
+			c.Ref.Abs.Host = c09IDNHosts[rapid.IntRange(0, len(c09IDNHosts)-1).Draw(t, "idnrefhost")]
 		}
 		veriflib.Guard("C09", "C09/resolution", c, func() { propC09Resolution(t, c) })
 	})
